@@ -6,3 +6,6 @@ import IdenaModel.Props.C03
 import IdenaModel.Props.C13State
 import IdenaModel.Props.C17
 import IdenaModel.Props.C19
+import IdenaModel.Props.C05
+import IdenaModel.Props.C04Tx
+import IdenaModel.Props.C06Tx
